@@ -733,7 +733,8 @@ class CSSSerializer(object):
             for item in rule.seq:
                 type_, val = item.type, item.value
                 # PRE
-                if '}' == val:
+                # (a brace, not a string or URL with the value "}" or "{")
+                if '}' == val and 'CHAR' == type_:
                     # close last open item on stack
                     stackblock = stacks.pop().value()
                     if stackblock:
@@ -749,7 +750,7 @@ class CSSSerializer(object):
                     out.append(val, type_)
 
                 # POST
-                if '{' == val:
+                if '{' == val and 'CHAR' == type_:
                     # new stack level
                     stacks.append(Out(self))
 
